@@ -30,26 +30,27 @@ type retCtx struct {
 }
 
 type Fx struct {
-	c            *Ctx
-	w            *World
-	fi           *FuncInfo
-	pkg          *packages.Package
-	info         *types.Info
-	entry        *State
-	ret          []*retCtx
-	jumps        []*jumpCtx
-	loopOrd      int
-	spec         *FuncSpec
-	params       []types.Object
-	recv         types.Object
-	inline       int
-	pendingLabel string
-	litVals      map[*ast.FuncLit]string
-	curPos       token.Pos
-	loadKey      string
-	noGuard      bool
-	inAtomic     bool
-	loopHeads    map[string]*State
+	c             *Ctx
+	w             *World
+	fi            *FuncInfo
+	pkg           *packages.Package
+	info          *types.Info
+	entry         *State
+	ret           []*retCtx
+	jumps         []*jumpCtx
+	loopOrd       int
+	spec          *FuncSpec
+	params        []types.Object
+	recv          types.Object
+	inline        int
+	pendingLabel  string
+	litVals       map[*ast.FuncLit]string
+	curPos        token.Pos
+	loadKey       string
+	noGuard       bool
+	inAtomic      bool
+	loadFromEntry bool
+	loopHeads     map[string]*State
 }
 
 type unsupported struct{ msg string }
@@ -547,7 +548,10 @@ func (fx *Fx) execTypeSwitch(st *State, s *ast.TypeSwitchStmt) {
 		rest.assume("(not " + cd + ")")
 		if obj := fx.info.Implicits[cc]; obj != nil {
 			if single != nil {
-				fx.declVar(t, obj, fx.fromIface(t, v, single))
+				uv := fx.fromIface(t, v, single)
+				uv.T = fx.c.define("tsv", uv.S, uv.T)
+				fx.boundRefs(t, uv.T, single, 0)
+				fx.declVar(t, obj, uv)
 			} else {
 				fx.declVar(t, obj, v)
 			}
